@@ -292,36 +292,7 @@ def run(P, R, tier):
         if key in lockers:
             R.ok("C06.balance", f["q"], "balanced on all %d CFG nodes" % len(cfg.nodes))
 
-    # ------------------------------------------------------------------ C06.ids
-    ri = R.rule("C06.ids", "InstancesIndex only post-incremented; IPhreeqc::Index assigned only in the constructor", minimum=2)
-    idx_w = []
-    index_w = []
-    for key, f in P.functions.items():
-        for tgt, how, line, node in T.writes(f["body"]):
-            root, steps = T.access_path(tgt)
-            if root[0] == "global" and root[1] == "IPhreeqc::InstancesIndex":
-                idx_w.append((f, how, line, node))
-            if steps and steps[-1] == ("f", "IPhreeqc::Index"):
-                index_w.append((f, how, line, node))
-    R.require(idx_w, "C06.ids", "no write of IPhreeqc::InstancesIndex found")
-    R.require(index_w, "C06.ids", "no write of IPhreeqc::Index found")
-    for f, how, line, node in idx_w:
-        inst = "InstancesIndex@%s" % f["q"]
-        if how == "++" and node[2] == "post++":
-            R.ok("C06.ids", inst, "post-increment")
-        else:
-            R.violation("C06.ids", inst, "id counter written other than by post-increment (%s): ids could repeat" % how,
-                        file=f["file"], line=line, function=f["q"])
-    for f, how, line, node in index_w:
-        inst = "Index@%s" % f["q"]
-        src = node[4] if node[0] == "Bin" else None
-        okc = f.get("special") == "ctor" and f.get("cls") == "IPhreeqc" and how == "=" and T.is_node(src) and \
-            src[0] == "Un" and src[2] == "post++" and T.access_path(src[3])[0] == ("global", "IPhreeqc::InstancesIndex")
-        if okc:
-            R.ok("C06.ids", inst, "Index = InstancesIndex++ in the constructor")
-        else:
-            R.violation("C06.ids", inst, "instance id assigned outside the constructor or not from InstancesIndex++",
-                        file=f["file"], line=line, function=f["q"])
+    ids_rule(P, R, "C06.ids")
 
     # ------------------------------------------------------------------ C06.nondet
     rn = R.rule("C06.nondet", "nondeterminism sources (clock, random, env, pid) only at the status/elapsed-time sites", minimum=3)
@@ -420,3 +391,36 @@ def run_witnesses(R, rule, witnesses, prelude, positive):
             R.ok(rule, name, "rejected by the compiler")
         else:
             R.anchor_missing(rule, "witness %s fails for an unexpected reason: %s" % (name, r.stdout[-300:]))
+
+
+def ids_rule(P, R, RULE):
+    R.rule(RULE, "InstancesIndex only post-incremented; IPhreeqc::Index assigned only in the constructor", minimum=2)
+    idx_w = []
+    index_w = []
+    for key, f in P.functions.items():
+        for tgt, how, line, node in T.writes(f["body"]):
+            root, steps = T.access_path(tgt)
+            if root[0] == "global" and root[1] == "IPhreeqc::InstancesIndex":
+                idx_w.append((f, how, line, node))
+            if steps and steps[-1] == ("f", "IPhreeqc::Index"):
+                index_w.append((f, how, line, node))
+    R.require(idx_w, RULE, "no write of IPhreeqc::InstancesIndex found")
+    R.require(index_w, RULE, "no write of IPhreeqc::Index found")
+    for f, how, line, node in idx_w:
+        inst = "InstancesIndex@%s" % f["q"]
+        if how == "++" and node[2] == "post++":
+            R.ok(RULE, inst, "post-increment")
+        else:
+            R.violation(RULE, inst, "id counter written other than by post-increment (%s): ids could repeat" % how,
+                        file=f["file"], line=line, function=f["q"])
+    for f, how, line, node in index_w:
+        inst = "Index@%s" % f["q"]
+        src = node[4] if node[0] == "Bin" else None
+        okc = f.get("special") == "ctor" and f.get("cls") == "IPhreeqc" and how == "=" and T.is_node(src) and \
+            src[0] == "Un" and src[2] == "post++" and T.access_path(src[3])[0] == ("global", "IPhreeqc::InstancesIndex")
+        if okc:
+            R.ok(RULE, inst, "Index = InstancesIndex++ in the constructor")
+        else:
+            R.violation(RULE, inst, "instance id assigned outside the constructor or not from InstancesIndex++",
+                        file=f["file"], line=line, function=f["q"])
+
